@@ -16,7 +16,8 @@ impl<M: Message> BoxedFn<(CallTag, M)> {
     { unimplemented!() }
 }
 pub open spec fn upgraded_caller<M: Message>(f_cap0: int, f_cap1: int, r: &Option<Caller<M>>) -> bool {
-    *r is Some ==> r->0.wf() && r->0.chan() == f_cap0 && r->0.id.0 as int == f_cap1
+    &&& (*r is Some ==> r->0.wf() && r->0.chan() == f_cap0 && r->0.id.0 as int == f_cap1)
+    &&& (*r is Some) == both_alive(f_cap0)
 }
 impl<M: Message> BoxedFn<(UpTag, M)> {
     #[verifier::external_body]
